@@ -74,6 +74,23 @@ type Case struct {
 	Tie         bool     `json:"tie,omitempty"` // store correspondence: recorded puts / deletes replayed on the store model
 	Genesis     []Op     `json:"genesis"`
 	Steps       []Step   `json:"steps"`
+	// store correspondence of trie.go on working tries: rounds of Get / Update / delete on two extra tries driven directly
+	// through muxdb.Trie (trie 0 hash-skipped, trie 1 hashed), each round a handle opened at the trie's last root, the
+	// operations, Commit; run before step At
+	Work []WorkRound `json:"work,omitempty"`
+}
+
+type WOp struct {
+	K   string `json:"k"` // g u d
+	Key string `json:"key"`
+	V   string `json:"v,omitempty"`
+	M   string `json:"m,omitempty"`
+}
+
+type WorkRound struct {
+	At   int   `json:"at"`
+	Trie int   `json:"trie"`
+	Ops  []WOp `json:"ops"`
 }
 
 func unhex(s string) []byte {
@@ -172,9 +189,72 @@ type tieState struct {
 	ops    []string
 	checks []func(ans string) string
 	clean  bool // only reads since the last restart (caches hold nothing the store does not)
+	// handle operations known to have produced the next commit of a trie (name -> operations): the model's trie.go on working
+	// tries + hasher.store predicts the puts of that commit from them ("w" before the commit's "c")
+	pre       map[string]preOp
+	predicted int // commits whose puts were predicted from their operations
+}
+
+type preOp struct {
+	ops  string // oracle tokens: g<key> u<key>=<val~meta> d<key>
+	skip bool   // Commit(.., skipHash): every dirty node is put, the prediction is exact; otherwise only `put paths are dirty paths` is judged
+	ver  trie.Version
+}
+
+// workCheck compares the model's prediction for one commit (answer of a "w" operation) with the recorded puts of that commit.
+func workCheck(what, name string, p preOp, real []string) func(ans string) string {
+	return func(ans string) string {
+		f := strings.Fields(ans)
+		if len(f) == 0 || f[0] != "W" {
+			return fmt.Sprintf("%s: trie %q v%s: the model's handle operations or commit fail (%s) where the real ones succeeded", what, name, verTok(p.ver), ans)
+		}
+		var entries, dirty []string
+		cur := &entries
+		for _, x := range f[1:] {
+			if x == "#" {
+				cur = &dirty
+				continue
+			}
+			*cur = append(*cur, x)
+		}
+		if p.skip {
+			if got, want := sortedTokens(entries), sortedTokens(real); got != want {
+				return fmt.Sprintf("%s: trie %q v%s (hash-skipped): the nodes Trie.Commit put differ from what the model's insert/delete + hasher.store put for the operations [%s]: implementation {%s} model {%s}",
+					what, name, verTok(p.ver), clip(p.ops), clip(want), clip(got))
+			}
+			return ""
+		}
+		ok := map[string]bool{"-": true}
+		for _, d := range dirty {
+			ok[d] = true
+		}
+		root := false
+		for _, e := range real {
+			pth := e[:strings.IndexByte(e, '=')]
+			if pth == "-" {
+				root = true
+			}
+			if !ok[pth] {
+				return fmt.Sprintf("%s: trie %q v%s: Trie.Commit put a node at path %s that is not a dirty node of the model's handle after the operations [%s] (dirty: %s)",
+					what, name, verTok(p.ver), pth, clip(p.ops), clip(strings.Join(dirty, " ")))
+			}
+		}
+		if root != (len(entries) > 0) {
+			return fmt.Sprintf("%s: trie %q v%s: root written by the implementation: %v, by the model: %v (operations [%s])", what, name, verTok(p.ver), root, len(entries) > 0, clip(p.ops))
+		}
+		return ""
+	}
 }
 
 var emptyTrieRoot = thor.Blake2b([]byte{0x80})
+
+// chain.Repository.indexBlock: a handle on the parent's index root, one Update(number -> id), Commit(number.conflicts, skipHash)
+func indexPre(id thor.Bytes32, conflicts uint32) preOp {
+	return preOp{ops: fmt.Sprintf("u%xt=%x~-", id[:4], id[:]), skip: true, ver: trie.Version{Major: block.Number(id), Minor: conflicts}}
+}
+
+// the two extra tries of Case.Work (names in the storage-trie syntax, with ids the state never produces)
+var workNames = [2]string{"s\xff\xff\xff\xfe\x00\x00", "s\xff\xff\xff\xfd\x00\x00"}
 
 func (t *tieState) name(n string) int {
 	if id, ok := t.names[n]; ok {
@@ -221,12 +301,27 @@ func (t *tieState) commitOps(c *Case, ops []triesim.WriteOp, what string, parent
 		}
 		g.entries = append(g.entries, triesim.PathTok(nk.Path)+"="+txt)
 	}
+	pre := t.pre
+	t.pre = nil
+	emitW := func(name string, p preOp, par string, real []string) {
+		sk := "0"
+		if p.skip {
+			sk = "1"
+		}
+		t.ops = append(t.ops, fmt.Sprintf("w %x %x %x %s %s %s", t.name(name), p.ver.Major, p.ver.Minor, par, sk, p.ops))
+		t.checks = append(t.checks, workCheck(what, name, p, real))
+	}
 	for _, g := range groups {
 		par := "-"
 		if pv, ok := parentOf(g.name); ok {
 			par = verTok(pv)
 		}
 		g := g
+		if p, ok := pre[g.name]; ok && p.ver == g.ver {
+			emitW(g.name, p, par, g.entries)
+			delete(pre, g.name)
+			t.predicted++
+		}
 		t.ops = append(t.ops, fmt.Sprintf("c %x %x %x %s %s", t.name(g.name), g.ver.Major, g.ver.Minor, par, strings.Join(g.entries, " ")))
 		t.checks = append(t.checks, func(ans string) string {
 			if ans != "L0" {
@@ -235,6 +330,19 @@ func (t *tieState) commitOps(c *Case, ops []triesim.WriteOp, what string, parent
 			}
 			return ""
 		})
+	}
+	// a commit that put nothing (Trie.Commit on an empty trie): the model must predict no put either
+	var left []string
+	for n := range pre {
+		left = append(left, n)
+	}
+	sort.Strings(left)
+	for _, n := range left {
+		par := "-"
+		if pv, ok := parentOf(n); ok {
+			par = verTok(pv)
+		}
+		emitW(n, pre[n], par, nil)
 	}
 	return ""
 }
@@ -410,6 +518,7 @@ func runReal(c *Case) (rr realRun) {
 	g.index = []string{hex.EncodeToString(g.id[:])}
 	if tie != nil {
 		g.stor, g.accLeaves = storageRoots(gco), accountLeaves(db, g.root)
+		tie.pre = map[string]preOp{muxdb.IndexTrieName: indexPre(g.id, 0)}
 		tieNote(tie.commitOps(c, rec.Drain(), "genesis", func(string) (trie.Version, bool) { return trie.Version{}, false }))
 	}
 	rr.blocks = append(rr.blocks, g)
@@ -465,6 +574,7 @@ func runReal(c *Case) (rr realRun) {
 		if tie != nil {
 			b.stor, b.accLeaves = storageRoots(co), accountLeaves(db, b.root)
 			tie.clean = false
+			tie.pre = map[string]preOp{muxdb.IndexTrieName: indexPre(b.id, conflicts)}
 			tieNote(tie.commitOps(c, rec.Drain(), fmt.Sprintf("block #%d", len(rr.blocks)), func(name string) (trie.Version, bool) {
 				if name == muxdb.IndexTrieName || (name == muxdb.AccountTrieName && p.root.Hash != emptyTrieRoot) {
 					return trie.Version{Major: p.num, Minor: p.conflicts}, true
@@ -479,7 +589,70 @@ func runReal(c *Case) (rr realRun) {
 		rr.blocks = append(rr.blocks, b)
 		return true
 	}
+	var workRoots [2]trie.Root
+	var workPar [2]*trie.Version
+	wi := 0
+	runWork := func(upto int) bool {
+		for wi < len(c.Work) && c.Work[wi].At <= upto {
+			w := c.Work[wi]
+			wi++
+			tr := w.Trie & 1
+			skip := tr == 0
+			t := db.NewTrie(workNames[tr], workRoots[tr])
+			var toks []string
+			for _, op := range w.Ops {
+				key := unhex(op.Key)
+				var err error
+				switch op.K {
+				case "g":
+					_, _, err = t.Get(key)
+					toks = append(toks, fmt.Sprintf("g%xt", key))
+				case "d":
+					err = t.Update(key, nil, nil)
+					toks = append(toks, fmt.Sprintf("d%xt", key))
+				default:
+					err = t.Update(key, unhex(op.V), unhex(op.M))
+					toks = append(toks, fmt.Sprintf("u%xt=%s~%s", key, hexOrDash(unhex(op.V)), hexOrDash(unhex(op.M))))
+				}
+				if err != nil {
+					rr.err = fmt.Sprintf("work round %d: %s: %v", wi, op.K, err)
+					return false
+				}
+			}
+			ver := trie.Version{Major: 1000 + uint32(wi)}
+			rec.Drain()
+			if err := t.Commit(ver, skip); err != nil {
+				rr.err = fmt.Sprintf("work round %d: commit: %v", wi, err)
+				return false
+			}
+			puts := rec.Drain()
+			if tie != nil {
+				par := workPar[tr]
+				tie.clean = false
+				tie.pre = map[string]preOp{workNames[tr]: {ops: strings.Join(toks, " "), skip: skip, ver: ver}}
+				tieNote(tie.commitOps(c, puts, fmt.Sprintf("work round %d", wi), func(string) (trie.Version, bool) {
+					if par == nil {
+						return trie.Version{}, false
+					}
+					return *par, true
+				}))
+			}
+			if h := t.Hash(); h == emptyTrieRoot {
+				workRoots[tr], workPar[tr] = trie.Root{}, nil
+			} else {
+				v := ver
+				workRoots[tr], workPar[tr] = trie.Root{Hash: h, Ver: ver}, &v
+			}
+			rr.counts["work.rounds"]++
+			rr.counts["work.ops"] += len(w.Ops)
+			rr.counts["work.puts"] += len(puts)
+		}
+		return true
+	}
 	for si, s := range c.Steps {
+		if !runWork(si) {
+			return
+		}
 		switch s.K {
 		case "block":
 			st := state.New(db, rr.blocks[s.Parent].root)
@@ -623,6 +796,7 @@ func runReal(c *Case) (rr realRun) {
 			}
 		}
 	}
+	runWork(math.MaxInt32) // the rounds scheduled after the last step
 	return
 }
 
@@ -1002,6 +1176,44 @@ func genCase(r *hx.Rand, idx int, thorough bool) *Case {
 		}
 	}
 	c.Steps = append(c.Steps, Step{K: "read"}, Step{K: "restart"}, Step{K: "read"})
+	if c.Tie {
+		// rounds on the two extra tries: keys of 1-3 bytes over a small alphabet (prefixes of one another: values in slot 16,
+		// splits and merges of short nodes, full nodes reduced to one entry), values of 1-40 bytes (full nodes with and without a hash)
+		alpha := []byte{0x10, 0x11, 0x1f, 0xa0}
+		var pool [][]byte
+		for i, n := 0, r.Range(5, 14); i < n; i++ {
+			k := make([]byte, r.Range(1, 3))
+			for j := range k {
+				k[j] = alpha[r.Intn(len(alpha))]
+			}
+			pool = append(pool, k)
+		}
+		var ats []int
+		for i, n := 0, r.Range(4, 12); i < n; i++ {
+			ats = append(ats, r.Intn(len(c.Steps)+1))
+		}
+		sort.Ints(ats)
+		for _, at := range ats {
+			w := WorkRound{At: at, Trie: r.Intn(2)}
+			for i, n := 0, r.Range(0, 8); i < n; i++ {
+				op := WOp{Key: hex.EncodeToString(pool[r.Intn(len(pool))])}
+				switch x := r.Intn(100); {
+				case x < 20:
+					op.K = "g"
+				case x < 45:
+					op.K = "d"
+				default:
+					op.K = "u"
+					op.V = hex.EncodeToString(r.Bytes(r.Range(1, 40)))
+					if r.Chance(1, 4) {
+						op.M = hex.EncodeToString(r.Bytes(r.Range(1, 4)))
+					}
+				}
+				w.Ops = append(w.Ops, op)
+			}
+			c.Work = append(c.Work, w)
+		}
+	}
 	return c
 }
 
@@ -1146,6 +1358,7 @@ func runCases(ctx *hx.Ctx, cases []*Case) {
 			}
 			ctx.Cov.Add("tie.cases", 1)
 			ctx.Cov.Add("tie.ops", len(rr.tie.ops))
+			ctx.Cov.Add("tie.commits_predicted_from_operations", rr.tie.predicted)
 		}
 	}
 }
